@@ -302,6 +302,50 @@ func runC16(c *harness.Ctx) {
 				R.Cover("C16/rejected-schedule-checks")
 			}
 		}
+		// the same formula under schedules of the size a live network uses (function costs in the
+		// millions, tens of thousands per stored byte) and with per-byte prices of 2^22 and 2^33:
+		// products far beyond 32 bits, still far from 64
+		if exact {
+			for si, SX := range []map[string]map[string]uint64{
+				world.GasMapFrom(func(sec, _ string, idx int) uint64 {
+					if sec == vmcommon.BaseOperationCostString {
+						return 10000 + uint64(idx)*10007
+					}
+					return 1000000 + uint64(idx)*100003
+				}),
+				world.GasMapFrom(func(sec, _ string, idx int) uint64 {
+					if sec == vmcommon.BaseOperationCostString {
+						return 1<<22 + uint64(idx)
+					}
+					return 1<<33 + uint64(idx)
+				}),
+				world.GasMapFrom(func(sec, _ string, idx int) uint64 {
+					if sec == vmcommon.BaseOperationCostString {
+						return 1<<33 + uint64(idx)*3
+					}
+					return 77 + uint64(idx)
+				}),
+			} {
+				sX, lX, consX, okX := measure(c, sc, SX)
+				if !okX {
+					R.Note(fmt.Sprintf("scenario %s not measurable under large schedule %d", sc.Name, si))
+					continue
+				}
+				wantX := uint64(0)
+				if sc.OwnField != "" {
+					wantX = SX[vmcommon.BuiltInCostString][sc.OwnField] * sc.Mult
+				}
+				for f, m := range per {
+					wantX += m * SX[vmcommon.BaseOperationCostString][f]
+				}
+				if consX != wantX {
+					sX.M.Enabled["C16"] = true
+					sX.M.viol("C16", "absolute-price-large-schedule:"+scSig(sc), fmt.Sprintf("scenario %s consumed %d under large schedule %d, the documented formula gives %d (own cost x %d + per-byte %v)", sc.Name, consX, si, wantX, sc.Mult, per), lX)
+				}
+				R.Cover("C16/absolute-formula-large-schedules")
+				R.Eval(1)
+			}
+		}
 		if i == 3 {
 			sample(c, map[string]interface{}{"scenario": sc.Name, "consumption_base": cons0, "own_field": sc.OwnField, "per_byte": fmt.Sprint(per)})
 		}
